@@ -157,7 +157,7 @@ structure Output where
   final : List Ident         -- the identities, in iteration order, with the shard they have afterwards
   threshold : Option Nat     -- the returned discrimination stake threshold (none = nil)
   relocated : Nat × Nat × Nat
-  deriving Repr
+  deriving Repr, DecidableEq
 
 def Input.total (i : Input) : Nat := i.totN + i.totV + i.totS
 
